@@ -152,12 +152,12 @@ static void decode_x86_inst(const vh::Op& op, int mode, Call& c) {
   c.inst = g_instid[fi];
   uint64_t cm = G(2), nz = G(3);
   if (cm % 4 == 0) c.comment = kComments[(cm >> 2) % 4];
-  if (nz % 8 == 0) c.opt |= kNoiseOpts[(nz >> 3) % (sizeof(kNoiseOpts) / sizeof(kNoiseOpts[0]))];
+  if (nz % 20 == 0) c.opt |= kNoiseOpts[(nz / 20) % (sizeof(kNoiseOpts) / sizeof(kNoiseOpts[0]))];
   if ((c.x.options & (xi::kOptRep | xi::kOptRepne)) && ((nz >> 8) & 1)) {
     // rep(zcx): the count register as extra register
     c.has_extra = true;
     c.extra = mode == 64 ? (((nz >> 9) & 3) == 0 ? Reg(x86::ecx) : Reg(x86::rcx)) : Reg(x86::ecx);
-  } else if ((nz >> 11) % 24 == 0) {
+  } else if ((nz >> 11) % 60 == 0) {
     c.has_extra = true;                                // arbitrary extra register (may be illegal: rejected on every path alike)
     c.extra = ((nz >> 16) & 1) ? Reg(x86::KReg(uint32_t((nz >> 17) % 8))) : Reg(x86::gpd(uint32_t((nz >> 17) % 8)));
   }
@@ -180,6 +180,7 @@ static void decode_x86_linst(const vh::Op& op, int mode, uint32_t lab, Call& c) 
   auto G = [&](size_t i) -> uint64_t { return i < op.size() ? uint64_t(op[i]) : 0; };
   xi::Choices ch(op, 4);
   c.kind = K_LINST;
+  c.label = lab;
   c.is_db = false;
   Label L(lab);
   uint64_t cm = G(3);
@@ -228,7 +229,10 @@ static void decode_x86_linst(const vh::Op& op, int mode, uint32_t lab, Call& c) 
       if (k) { c.has_extra = true; c.extra = KReg(uint32_t(k)); if (ch.pick(2)) c.opt |= InstOptions::kX86_ZMask; }
       break;
     }
-    case 10: E(Inst::kIdLea, {x86_gp(mode, 32, uint32_t(ch.pick(16))), Mem(L, x86_gp(mode, mode, uint32_t(ch.pick(16))), uint32_t(ch.pick(4)), DISP())}); break;
+    case 10:   // [label + index*scale + disp] exists in 32-bit mode only (64-bit: rejected; generated rarely)
+      if (mode == 32 || ch.pick(8) == 0) E(Inst::kIdLea, {x86_gp(mode, 32, uint32_t(ch.pick(16))), Mem(L, x86_gp(mode, mode, uint32_t(ch.pick(16))), uint32_t(ch.pick(4)), DISP())});
+      else E(Inst::kIdLea, {x86_gp(mode, 64, uint32_t(ch.pick(16))), Mem(L, DISP())});
+      break;
     case 11: {
       static const uint64_t abs[] = {0, 0x1000, 0x7fffffff, 0x80000000ull, 0x123456789ull, 0xffffffffffffff00ull};
       E(ch.pick(2) ? Inst::kIdJmp : Inst::kIdCall, {Imm(abs[ch.pick(mode == 64 ? 6 : 4)])});
@@ -263,9 +267,9 @@ struct A64Env {
     switch (arr % 7) { case 0: return v.b8(); case 1: return v.b16(); case 2: return v.h4(); case 3: return v.h8(); case 4: return v.s2(); case 5: return v.s4(); default: return v.d2(); }
   }
   Imm CC() { return Imm(uint32_t(2 + c.pick(14))); }
-  Imm SH(int maxv) { static const ShiftOp k[] = {ShiftOp::kLSL, ShiftOp::kLSR, ShiftOp::kASR}; return Imm(arm::Shift(k[c.pick(3)], uint32_t(c.pick(maxv)))); }
+  Imm SH(int maxv) { static const arm::ShiftOp k[] = {arm::ShiftOp::kLSL, arm::ShiftOp::kLSR, arm::ShiftOp::kASR}; return Imm(arm::Shift(k[c.pick(3)], uint32_t(c.pick(maxv)))); }
   Imm EXT() {
-    static const ShiftOp k[] = {ShiftOp::kUXTB, ShiftOp::kUXTH, ShiftOp::kUXTW, ShiftOp::kUXTX, ShiftOp::kSXTB, ShiftOp::kSXTH, ShiftOp::kSXTW, ShiftOp::kSXTX};
+    static const arm::ShiftOp k[] = {arm::ShiftOp::kUXTB, arm::ShiftOp::kUXTH, arm::ShiftOp::kUXTW, arm::ShiftOp::kUXTX, arm::ShiftOp::kSXTB, arm::ShiftOp::kSXTH, arm::ShiftOp::kSXTW, arm::ShiftOp::kSXTX};
     return Imm(arm::Shift(k[c.pick(8)], uint32_t(c.pick(5))));
   }
   // memory operand with every addressing mode; scale = log2(access size)
@@ -297,7 +301,7 @@ struct A64Env {
 
 static void a64_shape(int shape, xi::Choices& c, Call& out) {
   using namespace a64;
-  typedef a64::Inst I;
+  namespace I = a64::Inst;
   A64Env e(c, out);
   bool w = c.pick(2) == 0;   // 32-bit variant
   switch (shape) {
@@ -526,11 +530,12 @@ static void decode_a64_inst(const vh::Op& op, Call& c) {
 // op = [K_LINST, shape, label, comment, choices...]
 static void decode_a64_linst(const vh::Op& op, uint32_t lab, Call& c) {
   using namespace a64;
-  typedef a64::Inst I;
+  namespace I = a64::Inst;
   auto G = [&](size_t i) -> uint64_t { return i < op.size() ? uint64_t(op[i]) : 0; };
   xi::Choices ch(op, 4);
   A64Env e(ch, c);
   c.kind = K_LINST;
+  c.label = lab;
   c.is_db = false;
   Label L(lab);
   uint64_t cm = G(3);
@@ -743,7 +748,7 @@ static rc::Gen<vh::Op> op_gen(int arch, bool edits) {
       return op;
     }
     int r = *vh::irange<int>(0, 999);
-    if (r < 420) {
+    if (r < 390) {
       op.push_back(K_INST);
       if (arch < 2) {
         int cs = *vh::irange<int>(0, 99);
@@ -761,54 +766,54 @@ static rc::Gen<vh::Op> op_gen(int arch, bool edits) {
         op.push_back(0);
         ints(op, 14);
       }
-    } else if (r < 560) {
+    } else if (r < 530) {
       op.push_back(K_LINST);
       op.push_back(*vh::irange<int>(0, arch < 2 ? 13 : kA64LabelShapes - 1));
       op.push_back(*vh::irange<int>(0, 63));              // label
       op.push_back(*vh::irange<int>(0, 15));              // comment
       ints(op, 10);
-    } else if (r < 610) {
+    } else if (r < 580) {
       op.push_back(K_NEWLABEL);
       op.push_back(*vh::irange<int>(0, 9));               // 0..5 anonymous, else named
       op.push_back(*vh::irange<int>(0, 7));               // name
       op.push_back(*vh::irange<int>(0, 7));               // type
       op.push_back(*vh::irange<int>(0, 63));              // parent
-    } else if (r < 700) {
+    } else if (r < 670) {
       op.push_back(K_BIND);
       op.push_back(*vh::irange<int>(0, 63));
       op.push_back(*vh::irange<int>(0, 31));              // 0: allow binding an already bound label
-    } else if (r < 745) {
+    } else if (r < 715) {
       op.push_back(K_ALIGN);
       op.push_back(*vh::irange<int>(0, 39));              // mode (3.. rarely invalid)
       op.push_back(*vh::irange<int>(0, 39));              // alignment selector
-    } else if (r < 780) {
+    } else if (r < 750) {
       op.push_back(K_EMBED);
       op.push_back(*vh::irange<int>(0, 40));
       op.push_back(*vh::irange<int>(0, 0x3fffffff));
-    } else if (r < 815) {
+    } else if (r < 785) {
       op.push_back(K_DATA);
       op.push_back(*vh::irange<int>(0, 31));              // type selector
       op.push_back(*vh::irange<int>(0, 6));               // count
       op.push_back(*vh::irange<int>(0, 5));               // repeat
       op.push_back(*vh::irange<int>(0, 0x3fffffff));
-    } else if (r < 845) {
+    } else if (r < 815) {
       op.push_back(K_CPOOL);
       op.push_back(*vh::irange<int>(0, 63));
       op.push_back(*vh::irange<int>(0, 5));               // number of constants
       op.push_back(*vh::irange<int>(0, 0x3fffffff));
-    } else if (r < 880) {
+    } else if (r < 850) {
       op.push_back(K_ELABEL);
       op.push_back(*vh::irange<int>(0, 63));
       op.push_back(*vh::irange<int>(0, 23));
-    } else if (r < 915) {
+    } else if (r < 885) {
       op.push_back(K_EDELTA);
       op.push_back(*vh::irange<int>(0, 63));
       op.push_back(*vh::irange<int>(0, 63));
       op.push_back(*vh::irange<int>(0, 23));
-    } else if (r < 935) {
+    } else if (r < 905) {
       op.push_back(K_COMMENT);
       op.push_back(*vh::irange<int>(0, 7));
-    } else if (r < 955) {
+    } else if (r < 935) {
       op.push_back(K_NEWSEC);
       op.push_back(*vh::irange<int>(0, 5));
       op.push_back(*vh::irange<int>(0, 15));
@@ -897,15 +902,18 @@ void vh_run(const vh::Case& cs, vh::Ctx& ctx) {
   static const char* pname[2] = {"builder", "compiler"};
 
   std::vector<Call> calls;
-  std::vector<Error> errA_of_call;
+  calls.reserve(402);                      // Call objects must not move: comment text is referenced by address
   std::vector<uint32_t> labels;            // label ids in creation order (kInvalidId: creation failed)
   std::vector<LabelSpec> lspecs;
   std::vector<SecSpec> sspecs;             // sections 1..
   std::vector<int> bind_item;              // per label index: model item or -1
   std::vector<int> sec_item;               // per section id
   Model model;
-  size_t edits = 0, interesting_ok = 0, inst_calls = 0;
+  size_t edits = 0, interesting_ok = 0;
   std::string sample;
+  uint32_t a_cur_sec = 0;                  // current section of the natural-order Assembler
+  bool a_diverged = false;                 // a call was withheld from the natural-order Assembler
+  const bool force_xsec = ctx.opts && ctx.opts->geti("force-xsec", 0) != 0;
 
   // initial .text section node
   {
@@ -924,6 +932,8 @@ void vh_run(const vh::Case& cs, vh::Ctx& ctx) {
   auto label_active = [&](size_t li) { int it = bind_item[li]; return it >= 0 && model.items[size_t(it)].active; };
   auto new_item = [&](int kind, int call, uint32_t id) { Item it; it.kind = kind; it.call = call; it.id = id; model.items.push_back(it); return int(model.items.size()) - 1; };
 
+  auto ref_hazard_natural = [&](uint32_t lab) { return A.code.is_label_valid(lab) && A.code.is_label_bound(lab) && A.code.label_entry_of(lab).section_id() != a_cur_sec; };
+
   // Issues one node-producing call on A, Builder and Compiler and records it in the model.
   auto do_call = [&](Call&& c0, int label_index) {
     calls.push_back(std::move(c0));
@@ -931,19 +941,19 @@ void vh_run(const vh::Case& cs, vh::Ctx& ctx) {
     const Call& c = calls.back();
     const char* kn = kKindName[c.kind];
     ctx.cls(std::string("op_") + kn);
-    Error ea = issue(*A.em, A.code, c);
-    errA_of_call.push_back(ea);
+    Error ea = Error::kOk;
+    if (c.kind == K_LINST && !force_xsec && ref_hazard_natural(c.label)) { a_diverged = true; ctx.cls("natural_assembler_call_withheld_xsec_bound_label"); }
+    else ea = issue(*A.em, A.code, c);
     Error eb[2];
     for (int p = 0; p < 2; p++) eb[p] = issue(*P[p].em, P[p].code, c);
     if ((eb[0] != Error::kOk) != (eb[1] != Error::kOk))
       ctx.fail_unless_known(std::string("error-occurrence-differs-builder-vs-compiler:") + kn, "call " + c.text + ": Builder returned " + std::to_string(int(eb[0])) + ", Compiler " + std::to_string(int(eb[1])));
     if (c.kind == K_INST || c.kind == K_LINST) {
-      inst_calls++;
       ctx.cls("inst_ops_" + std::to_string(c.nops));
       if (c.interesting) ctx.cls("inst_with_option_extra_or_gt3_ops");
       if (c.has_extra || (c.is_db && c.x.k)) ctx.cls("inst_extra_reg");
       if (c.comment) ctx.cls("inst_inline_comment");
-      if (ea == Error::kOk) { ctx.cls("inst_accepted"); if (c.interesting) interesting_ok++; } else ctx.cls("inst_rejected_by_assembler");
+      if (ea == Error::kOk) { ctx.cls("inst_accepted"); if (c.interesting) interesting_ok++; } else { ctx.cls("inst_rejected_by_assembler"); if (!c.is_db) ctx.cls("rejected:" + c.text.substr(0, c.text.find_first_of("(/"))); else ctx.cls(c.opt != InstOptions::kNone || c.has_extra ? "rejected:x86-db-with-noise" : "rejected:x86-db-plain"); }
     }
     if (eb[0] != Error::kOk || eb[1] != Error::kOk) {
       // Failed at call time in the Builder: no node was created. The same call must fail on the Assembler (codes may differ).
@@ -976,6 +986,9 @@ void vh_run(const vh::Case& cs, vh::Ctx& ctx) {
       int it = new_item(IT_CALL, ci, 0);
       for (int p = 0; p < 2; p++) model.items[size_t(it)].node[p] = P[p].bb->cursor();
       model.add_at_cursor(it);
+      if (c.kind == K_COMMENT && P[0].bb->cursor()->inline_comment() == c.text.c_str())
+        ctx.fail_unless_known("builder-empty-comment-keeps-caller-pointer", "Builder::comment(\"\", 0) stores the caller's pointer in the CommentNode instead of a copy (new_comment_node copies only "
+                              "when size > 0); serialize_to() later calls strlen() on it, i.e. use-after-free when the caller's buffer is gone (seen as ASan heap-use-after-free)");
     }
     if (ctx.want_sample() && sample.size() < 600) { sample += c.text.empty() ? kn : c.text; sample += " | "; }
   };
@@ -983,6 +996,28 @@ void vh_run(const vh::Case& cs, vh::Ctx& ctx) {
   // first label (from `start`, cyclic) whose node is not in the list; -1 if all are
   auto pick_unbound = [&](size_t start) -> int {
     for (size_t j = 0; j < labels.size(); j++) { size_t k = (start + j) % labels.size(); if (!label_active(k)) return int(k); }
+    return -1;
+  };
+
+  // section in effect at list position `pos` (-1: before the first element)
+  auto section_at = [&](int pos) -> uint32_t {
+    for (int q = pos; q >= 0; q--) { const Item& it = model.items[size_t(model.order[size_t(q)])]; if (it.kind == IT_SECTION) return it.id; }
+    return 0;
+  };
+  // Both assemblers run into ASMJIT_ASSERT(!le.is_bound()) in CodeHolder::new_fixup() when an instruction references a label that is already bound in
+  // ANOTHER section (release builds overwrite the label's offset with the fixup pointer). This is an Assembler defect independent of the Builder; such
+  // references are avoided where the harness can see them and the case is not compared when the edited list contains one.
+  auto ref_hazard_model = [&](size_t li) {
+    int it = bind_item[li];
+    if (it < 0 || !model.items[size_t(it)].active) return false;
+    return section_at(model.pos_of(it)) != section_at(model.cursor < 0 ? -1 : model.pos_of(model.cursor));
+  };
+  auto pick_ref_label = [&](size_t start) -> int {
+    for (size_t j = 0; j < labels.size(); j++) {
+      size_t k = (start + j) % labels.size();
+      if (labels[k] == Globals::kInvalidId) continue;     // invalid label as [label] operand in 32-bit mode: known out-of-bounds read (C14), not this property
+      if (force_xsec || (!ref_hazard_natural(labels[k]) && !ref_hazard_model(k))) return int(k);
+    }
     return -1;
   };
 
@@ -1000,7 +1035,9 @@ void vh_run(const vh::Case& cs, vh::Ctx& ctx) {
       }
       case K_LINST: {
         if (labels.empty()) { ctx.cls("skip_no_label"); break; }
-        size_t li = size_t(G(2) % labels.size());
+        int lk = pick_ref_label(size_t(G(2) % labels.size()));
+        if (lk < 0) { ctx.cls("skip_no_referencable_label"); break; }
+        size_t li = size_t(lk);
         Call c;
         if (arch < 2) decode_x86_linst(op, mode, labels[li], c); else decode_a64_linst(op, labels[li], c);
         ctx.cls(label_active(li) ? "label_ref_to_bound" : "label_ref_to_unbound");
@@ -1051,9 +1088,9 @@ void vh_run(const vh::Case& cs, vh::Ctx& ctx) {
       case K_ALIGN: {
         Call c; c.kind = K_ALIGN;
         uint64_t ms = G(1) % 40, as = G(2) % 40;
-        c.amode = ms < 38 ? AlignMode(ms % 3) : AlignMode(3);
+        c.amode = ms < 39 ? AlignMode(ms % 3) : AlignMode(3);
         static const uint32_t good[] = {0, 1, 2, 4, 8, 16, 32, 64}, bad[] = {3, 128, 6, 256, 0x80000000u, 5, 12, 1024};
-        c.alignment = as < 32 ? good[as % 8] : bad[as - 32];
+        c.alignment = as < 38 ? good[as % 8] : bad[(as + ms) % 8];
         c.text = "align(" + std::to_string(int(c.amode)) + "," + std::to_string(c.alignment) + ")";
         do_call(std::move(c), -1);
         break;
@@ -1139,10 +1176,13 @@ void vh_run(const vh::Case& cs, vh::Ctx& ctx) {
       }
       case K_SECTION: {
         uint32_t sid = uint32_t(G(1) % sec_item.size());
+        // mostly switch to a section other than the one the cursor is in (a switch to the current section is kept as a rare case)
+        if (sec_item.size() > 1 && (G(1) / 8) % 4 != 0 && sid == section_at(model.cursor < 0 ? -1 : model.pos_of(model.cursor))) sid = uint32_t((sid + 1) % sec_item.size());
         Call c; c.kind = K_SECTION; c.section = sid; c.text = "section(" + std::to_string(sid) + ")";
         ctx.cls("op_section");
         Error ea = issue(*A.em, A.code, c);
         if (ea != Error::kOk) ctx.fail("harness-selfcheck:section", "Assembler::section() failed");
+        a_cur_sec = sid;
         int it = sec_item[sid];
         if (it < 0) { it = new_item(IT_SECTION, -1, sid); sec_item[sid] = it; }
         for (int p = 0; p < 2; p++) {
@@ -1259,6 +1299,28 @@ void vh_run(const vh::Case& cs, vh::Ctx& ctx) {
     else if (P[p].bb->cursor() != want_cursor) ctx.fail_unless_known(key_of("cursor-differs", pname[p]), std::string(pname[p]) + " cursor is not where the documented cursor rules put it");
   }
 
+  // ---- does the (edited) list reference a label that is bound earlier in another section? (Assembler defect, see above) ----
+  if (!force_xsec) {
+    std::map<uint32_t, uint32_t> bound_in;
+    uint32_t cur = 0;
+    bool hazard = false;
+    for (int iti : model.order) {
+      const Item& it = model.items[size_t(iti)];
+      if (it.kind == IT_SECTION) cur = it.id;
+      else if (it.kind == IT_BIND) { if (!bound_in.count(it.id)) bound_in[it.id] = cur; }
+      else if (it.kind == IT_CALL && calls[size_t(it.call)].kind == K_LINST) {
+        auto f = bound_in.find(calls[size_t(it.call)].label);
+        if (f != bound_in.end() && f->second != cur) { hazard = true; break; }
+      }
+    }
+    if (hazard) {
+      ctx.known_excluded("excluded:assembler-asserts-on-reference-to-label-bound-in-another-section");
+      ctx.cls("case_not_compared_xsec_bound_label_reference");
+      if (edited) ctx.nontrivial();
+      return;
+    }
+  }
+
   // ---- reference: the list issued to a fresh Assembler, stopping at the first error like serialize_to() ----
   Path R;
   R.init(arch, 0, flags);
@@ -1314,7 +1376,11 @@ void vh_run(const vh::Case& cs, vh::Ctx& ctx) {
   }
 
   // ---- literal form of the property: calls in natural order on an Assembler (valid when nothing reordered the list) ----
-  if (!edited && !model.reordered && err_ref == Error::kOk) {
+  // (.addrtab is created on demand and takes the next section id, which depends on when user sections were created: not comparable by id then)
+  bool addrtab_shift = A.code.has_address_table_section() && R.code.has_address_table_section() &&
+                       A.code.address_table_section()->section_id() != R.code.address_table_section()->section_id();
+  if (addrtab_shift) ctx.cls("case_addrtab_id_depends_on_creation_order");
+  if (!edited && !model.reordered && !a_diverged && !addrtab_shift && err_ref == Error::kOk) {
     Snap sa;
     take_snapshot(A.code, sa);
     std::string what, msg;
@@ -1326,5 +1392,4 @@ void vh_run(const vh::Case& cs, vh::Ctx& ctx) {
     ctx.nontrivial();
     if (ctx.want_sample()) ctx.sample(std::string(arch_name) + ": " + sample);
   }
-  (void)inst_calls;
 }
